@@ -233,10 +233,30 @@ func (c *Ctx) discharge(opts solveOpts) {
 	wg.Wait()
 }
 
+var satisfiedMu sync.Mutex
+var satisfied = map[string]bool{}
+
 func (c *Ctx) solveOne(i int, o *Obligation, opts solveOpts) {
 	if o.Goal == "true" && !o.ExpectSat {
 		o.Result, o.Solver = "unsat", "trivial"
 		return
+	}
+	if o.ExpectSat {
+		// satisfiability / reachability checks: one witness path per obligation name is enough
+		satisfiedMu.Lock()
+		done := satisfied[o.Name]
+		satisfiedMu.Unlock()
+		if done {
+			o.Result, o.Solver = "unknown", "covered by another path"
+			return
+		}
+		defer func() {
+			if o.ok() {
+				satisfiedMu.Lock()
+				satisfied[o.Name] = true
+				satisfiedMu.Unlock()
+			}
+		}()
 	}
 	file := filepath.Join(opts.workDir, fmt.Sprintf("%s_%d.smt2", sanitize(strings.ReplaceAll(o.Name, "/", "_")), i))
 	if err := os.WriteFile(file, []byte(c.queryText(o, false)), 0o644); err != nil {
